@@ -17,7 +17,7 @@ import (
 // NewCBCDecrypter called in the same activation (or handed to a private helper by callers that all do that); no
 // BlockMode is stored in a field.
 func c14FreshMode(c *core.Ctx) {
-	c.Rule("C14.freshmode", "the cipher.BlockMode that encrypts or decrypts a chunk is created from the derived key and IV for that very call (cipher.NewCBCEncrypter / NewCBCDecrypter in the same activation): a mode kept in the algorithm object carries the CBC chaining state over to the next message, which then is not AES-CBC under the derived IV", 2)
+	c.Rule("C14.freshmode", "the cipher.BlockMode that encrypts or decrypts a chunk is created from the derived key and IV for that very call (cipher.NewCBCEncrypter / NewCBCDecrypter in the same activation): a mode kept in the algorithm object carries the CBC chaining state over to the next message, which then is not AES-CBC under the derived IV", 1)
 	isNewCBC := func(v ssa.Value) bool {
 		call, ok := ssax.Strip(v).(*ssa.Call)
 		if !ok {
